@@ -116,9 +116,12 @@ Definition lin_ticks := lin_ticks_gen lin_count.
 
 Inductive nice_res := NR_panic | NR_dom (mn mx : Q).
 
+(* a finite float64 magnitude: n * spacing does not overflow to +-Inf (nor is it NaN = 0 * Inf) *)
+Definition f64_fin (q : Q) : bool := Qltb (Qabs q) (qpow 2 1024).
+
 (* linear.go:152-173, repaired (D10): each end moves only outwards and only to a finite
    value — an end whose nice value would lie inside the domain (by rounding, within the
-   slack) or is not a number stays where it is *)
+   slack) or is not a finite float64 (the level's spacing overflows) stays where it is *)
 Definition lin_nice_gen (C : Z -> Z -> Q -> Q -> bool -> Z -> Z)
     (base : Z) (mn mx : Q) (o : tickopts) (guess : Z) : nice_res :=
   let '(mn, mx) := if Qeqb mn mx then (mn - (1 # 2), mx + (1 # 2))
@@ -131,7 +134,7 @@ Definition lin_nice_gen (C : Z -> Z -> Q -> Q -> bool -> Z -> Z)
           let sp := lin_spacing base eb l in
           let '(f, la) := lin_first_last mn mx sp true in
           let nmn := inject_Z f * sp in let nmx := inject_Z la * sp in
-          NR_dom (if Qleb nmn mn then nmn else mn) (if Qleb mx nmx then nmx else mx)
+          NR_dom (if f64_fin nmn && Qleb nmn mn then nmn else mn) (if f64_fin nmx && Qleb mx nmx then nmx else mx)
       | _ => NR_dom mn mx
       end
   end.
